@@ -215,34 +215,44 @@ class Histories:
 STATE_FILES = ["bip32.py", "base_wallet.py", "paper_wallet.py", "bip85.py", "wallet_utils.py"]
 
 
+TOPS = ["ckd0", "ckd1", "ckd2", "bpA", "bpB", "children", "gen", "xkeys", "wif0", "wif1", "hex", "wasabi", "p2wpkh", "p2sh_p2wsh", "p2pkh0", "p2pkh1",
+        "generate"]
+
+
 def harness(name):
-    """-> make_bodies() for the scheduler. Bodies return JSON-able results; finalize checks shared-state invariants."""
+    """name = "opA|opB[|opC]" over TOPS -> make_bodies() for the scheduler. All threads share ONE wallet and the node
+    objects m/0, m/1 and m/84'/0'/0' derived before the threads start. Bodies return JSON-able results; finalize checks the
+    shared-state invariants."""
+    ops = name.split("|")
+
     def make():
         w = fast_wallet()
         master = w.master
-        m0 = master.ckd(0) if name not in ("ckd0|ckd0", "ckd0|ckd1", "ckd0|ckd1|ckd2") else None
-        acct = w.by_path("m/84'/0'/0'") if name == "xkeys|ckd" else None
-        m1 = master.ckd(1) if name == "p2pkh(m/0)|p2pkh(m/1)" else None
-        root0 = master.extended_private_key()
         c = hdscen.canon_impl_node
+        need = set(ops)
+        m0 = master.ckd(0) if need & {"children", "gen", "p2wpkh", "p2sh_p2wsh", "p2pkh0"} else None
+        m1 = master.ckd(1) if "p2pkh1" in need else None
+        acct = w.by_path("m/84'/0'/0'") if "xkeys" in need else None
+        root0 = master.extended_private_key()
 
         def gen_body():
             g = w.address_generator(m0)
             return [list(next(g)), list(next(g))]
 
         B = {
-            "ckd0|ckd0": [lambda: c(master.ckd(0)), lambda: c(master.ckd(0))],
-            "ckd0|ckd1": [lambda: c(master.ckd(0)), lambda: c(master.ckd(1))],
-            "ckd0|ckd1|ckd2": [lambda: c(master.ckd(0)), lambda: c(master.ckd(1)), lambda: c(master.ckd(2))],
-            "by_path|children": [lambda: c(w.by_path("m/0/1")), lambda: [c(x) for x in m0.generate_children((0, 2))]],
-            "genA|genB": [gen_body, gen_body],
-            "p2wpkh|p2sh_p2wsh": [lambda: w.p2wpkh_address(m0), lambda: w.p2sh_p2wsh_address(m0)],
-            "p2pkh(m/0)|p2pkh(m/1)": [lambda: w.p2pkh_address(m0), lambda: w.p2pkh_address(m1)],
-            "xkeys|ckd": [lambda: w.node_extended_keys(acct), lambda: c(acct.ckd(0))],
-            "bip85hex|by_path": [lambda: w.bip85.hex(16, 0), lambda: c(w.by_path("m/83696968'/0"))],
-            "bip85wif0|bip85wif1": [lambda: w.bip85.wif(0), lambda: w.bip85.wif(1)],
-            "generate|wasabi": [lambda: w.generate(1, (0, 1)), lambda: json.loads(w.wasabi_json())],
-        }[name]
+            "ckd0": lambda: c(master.ckd(0)), "ckd1": lambda: c(master.ckd(1)), "ckd2": lambda: c(master.ckd(2)),
+            "bpA": lambda: c(w.by_path("m/0/1")), "bpB": lambda: c(w.by_path("m/1/0")),
+            "children": lambda: [c(x) for x in m0.generate_children((0, 2))],
+            "gen": gen_body,
+            "xkeys": lambda: w.node_extended_keys(acct),
+            "wif0": lambda: w.bip85.wif(0), "wif1": lambda: w.bip85.wif(1), "hex": lambda: w.bip85.hex(16, 0),
+            "wasabi": lambda: json.loads(w.wasabi_json()),
+            "p2wpkh": lambda: w.p2wpkh_address(m0), "p2sh_p2wsh": lambda: w.p2sh_p2wsh_address(m0),
+            "p2pkh0": lambda: w.p2pkh_address(m0), "p2pkh1": lambda: w.p2pkh_address(m1),
+            "generate": lambda: w.generate(1, (0, 1)),
+        }
+        bodies = [B[o] for o in ops]
+        pre = len(master.children)
 
         def finalize(results):
             obs = {"results": {str(t): list(r) for t, r in sorted(results.items())}}
@@ -259,10 +269,9 @@ def harness(name):
                         break
                     stack.append((ch, cp))
             obs["state"] = bad or "consistent"
-            if name.startswith("ckd0|ckd"):
-                obs["children"] = sorted(ch.index for ch in master.children)
+            obs["new_master_children"] = sorted(ch.index for ch in master.children[pre:])
             return obs
-        return B, finalize
+        return bodies, finalize
     return make
 
 
@@ -273,26 +282,45 @@ def ref_canon_fast(path):
     return _REFCACHE[key]
 
 
-def expected_results(name):
+def expected_op(op):
     rc = ref_canon_fast
     m = master_ref()
-    gen = [[hd.path_str([0, i]), hd.p2wpkh(hd.derive(m, [0, i]).K)] for i in (0, 1)]
     acct = hd.derive(m, [H + 84, H, H])
-    E = {
-        "ckd0|ckd0": [rc([0]), rc([0])],
-        "ckd0|ckd1": [rc([0]), rc([1])],
-        "ckd0|ckd1|ckd2": [rc([0]), rc([1]), rc([2])],
-        "by_path|children": [rc([0, 1]), [rc([0, 0]), rc([0, 1])]],
-        "genA|genB": [gen, gen],
-        "p2wpkh|p2sh_p2wsh": [hd.p2wpkh(hd.derive(m, [0]).K), hd.p2sh_p2wsh(hd.derive(m, [0]).K)],
-        "p2pkh(m/0)|p2pkh(m/1)": [hd.p2pkh(hd.derive(m, [0]).K), hd.p2pkh(hd.derive(m, [1]).K)],
-        "xkeys|ckd": [{"path": "m/84'/0'/0'", "pub": hd.xpub(acct, 0x04B24746), "prv": hd.xprv(acct, 0x04B2430C)}, rc([H + 84, H, H, 0])],
-        "bip85hex|by_path": [hd.bip85_hex(m, 16, 0), rc([H + 83696968, 0])],
-        "bip85wif0|bip85wif1": [hd.bip85_wif(m, 0), hd.bip85_wif(m, 1)],
-        "generate|wasabi": [hd.paper_generate(m, False, 1, (0, 1), None, None),
-                            {"ExtPubKey": hd.xpub(acct), "MasterFingerprint": hd.fingerprint(m.K).hex().upper(), "ColdCardFirmwareVersion": "3.1.3"}],
-    }
-    return E[name]
+    if op in ("ckd0", "ckd1", "ckd2"):
+        return rc([int(op[3])]), [int(op[3])]
+    if op == "bpA":
+        return rc([0, 1]), [0]
+    if op == "bpB":
+        return rc([1, 0]), [1]
+    if op == "children":
+        return [rc([0, 0]), rc([0, 1])], []
+    if op == "gen":
+        return [[hd.path_str([0, i]), hd.p2wpkh(hd.derive(m, [0, i]).K)] for i in (0, 1)], []
+    if op == "xkeys":
+        return {"path": "m/84'/0'/0'", "pub": hd.xpub(acct, 0x04B24746), "prv": hd.xprv(acct, 0x04B2430C)}, []
+    if op == "wif0":
+        return hd.bip85_wif(m, 0), [H + 83696968]
+    if op == "wif1":
+        return hd.bip85_wif(m, 1), [H + 83696968]
+    if op == "hex":
+        return hd.bip85_hex(m, 16, 0), [H + 83696968]
+    if op == "wasabi":
+        return {"ExtPubKey": hd.xpub(acct), "MasterFingerprint": hd.fingerprint(m.K).hex().upper(), "ColdCardFirmwareVersion": "3.1.3"}, [H + 84]
+    if op == "p2wpkh":
+        return hd.p2wpkh(hd.derive(m, [0]).K), []
+    if op == "p2sh_p2wsh":
+        return hd.p2sh_p2wsh(hd.derive(m, [0]).K), []
+    if op == "p2pkh0":
+        return hd.p2pkh(hd.derive(m, [0]).K), []
+    if op == "p2pkh1":
+        return hd.p2pkh(hd.derive(m, [1]).K), []
+    if op == "generate":
+        return hd.paper_generate(m, False, 1, (0, 1), None, None), [H + 44, H + 49, H + 84] + [H + 83696968] * 9
+    raise ValueError(op)
+
+
+def expected_results(name):
+    return [expected_op(o) for o in name.split("|")]
 
 
 _EXPECTED = {}
@@ -301,8 +329,9 @@ _EXPECTED = {}
 def make_check(name):
     if name not in _EXPECTED:
         _EXPECTED[name] = expected_results(name)
-    exp = _EXPECTED[name]
-    exp_children = {"ckd0|ckd0": [0, 0], "ckd0|ckd1": [0, 1], "ckd0|ckd1|ckd2": [0, 1, 2]}.get(name)
+    exp = [e[0] for e in _EXPECTED[name]]
+    # NOTE: how many children end up in the master's list is NOT judged (a correctly keyed cache may legitimately
+    # append fewer); only that every stored entry is a correct child of its holder (finalize) and every result is right.
 
     def check(x):
         vs = []
@@ -315,9 +344,6 @@ def make_check(name):
                             str(r[1])[:200], str(e)[:200]))
         if x.observation["state"] != "consistent":
             vs.append(V("%s:schedule:%s:state-corrupted" % (P, name), "harness %s: %s" % (name, x.observation["state"])))
-        if exp_children is not None and x.observation.get("children") != exp_children:
-            vs.append(V("%s:schedule:%s:children-lost-or-duplicated" % (P, name), "harness %s: master.children indexes %r, expected %r" % (
-                name, x.observation.get("children"), exp_children)))
         return vs
     return check
 
@@ -402,8 +428,10 @@ def explore_harness(ctx, name, gran, bound):
 def warm():
     """fill the reference caches in the parent so that forked workers inherit them"""
     fast_wallet()
-    for n in ("ckd0|ckd0", "ckd0|ckd1", "ckd0|ckd1|ckd2", "by_path|children", "genA|genB", "p2wpkh|p2sh_p2wsh", "p2pkh(m/0)|p2pkh(m/1)", "xkeys|ckd",
-              "bip85hex|by_path", "bip85wif0|bip85wif1", "generate|wasabi"):
+    for o in TOPS:
+        make_check(o)
+        _EXPECTED[o] = [expected_op(o)]
+    for n, g, b in plan_for(True) + plan_for(False):
         make_check(n)
     wd = World()
     for op in OPS:
@@ -412,6 +440,35 @@ def warm():
     for i in range(0, 8):
         ref_canon([0, i])
         ref_addr([0, i], "p2wpkh")
+
+
+def plan_for(thorough):
+    """(harness, granularity, preemption bound). Pairs are taken systematically from the thread-operation alphabet."""
+    deriv = ["ckd0", "ckd1", "bpA", "bpB", "children", "gen"]
+    b85 = ["wif0", "wif1", "hex"]
+    plan = [("ckd0|ckd0", "state", 2), ("ckd0|ckd1", "state", 2)]
+    pairs = []
+    for i, a in enumerate(deriv):
+        for b in deriv[i:]:
+            pairs.append((a, b))
+    for i, a in enumerate(b85):
+        for b in b85[i:]:
+            pairs.append((a, b))
+    pairs += [("xkeys", "xkeys"), ("xkeys", "ckd0"), ("xkeys", "bpA"), ("wif0", "bpA"), ("hex", "ckd0"), ("wasabi", "wasabi"), ("wasabi", "bpA"), ("wasabi", "wif0")]
+    if thorough:
+        state_ops = [o for o in TOPS if o not in ("p2wpkh", "p2sh_p2wsh", "p2pkh0", "p2pkh1", "generate", "ckd2")]
+        pairs = [(a, b) for i, a in enumerate(state_ops) for b in state_ops[i:]]
+    for a, b in pairs:
+        name = "%s|%s" % (a, b)
+        if name not in ("ckd0|ckd0", "ckd0|ckd1"):
+            plan.append((name, "state", 1))
+    plan += [("p2wpkh|p2sh_p2wsh", "all", 1), ("p2pkh0|p2pkh1", "all", 1)]
+    if thorough:
+        plan = [(n, g, 3 if n in ("ckd0|ckd0", "ckd0|ckd1") else b) for n, g, b in plan]
+        plan += [("ckd0|ckd1|ckd2", "state", 2), ("bpA|bpB", "state", 2), ("children|gen", "state", 2), ("gen|gen", "state", 2), ("wif0|wif1", "state", 2),
+                 ("xkeys|ckd0", "state", 2), ("hex|bpA", "state", 2), ("generate|wasabi", "state", 1),
+                 ("p2wpkh|p2wpkh", "all", 1), ("ckd0|ckd1", "all", 1), ("wif0|wif1", "all", 1), ("bpA|bpB", "all", 1)]
+    return plan
 
 
 def run(ctx):
@@ -426,14 +483,7 @@ def run(ctx):
         # depth 4 on the sub-alphabet that touches shared mutable objects (children lists, generators, bip85)
         sub = [o for o in OPS if o[0] in ("by_path", "ckd", "children", "genA", "genB", "bip85wif", "addr")][:11]
         bfs(ctx, "api-call-histories-depth4-core", Histories(sub), 4, chunk=8)
-    plan = [("ckd0|ckd0", "state", 2), ("ckd0|ckd1", "state", 2), ("by_path|children", "state", 1), ("genA|genB", "state", 1),
-            ("xkeys|ckd", "state", 1), ("bip85hex|by_path", "state", 1), ("bip85wif0|bip85wif1", "state", 1),
-            ("p2wpkh|p2sh_p2wsh", "all", 1), ("p2pkh(m/0)|p2pkh(m/1)", "all", 1)]
-    if ctx.thorough:
-        plan = [("ckd0|ckd0", "state", 3), ("ckd0|ckd1", "state", 3), ("ckd0|ckd1|ckd2", "state", 2), ("by_path|children", "state", 2),
-                ("genA|genB", "state", 2), ("xkeys|ckd", "state", 2), ("bip85hex|by_path", "state", 2), ("bip85wif0|bip85wif1", "state", 2),
-                ("generate|wasabi", "state", 1), ("p2wpkh|p2sh_p2wsh", "all", 1), ("p2pkh(m/0)|p2pkh(m/1)", "all", 1), ("ckd0|ckd1", "all", 1),
-                ("bip85wif0|bip85wif1", "all", 1)]
+    plan = plan_for(ctx.thorough)
     reports = [explore_harness(ctx, n, g, b) for n, g, b in plan]
     total = sum(r["schedules"] for r in reports)
     return {"schedules": total, "schedule_harnesses": reports, "history_alphabet": len(ops), "history_depth": depth,
